@@ -67,7 +67,13 @@ Proof.
     rewrite firstn_length, skipn_length in U.
     assert (U' : ws_prefix_len (firstn (S v) (skipn (t_lsp st + t_s st) src)) <= length src - (t_lsp st + t_s st))
       by (eapply Nat.le_trans; [exact U|apply Nat.le_min_r]).
-    remember (ws_prefix_len (firstn (S v) (skipn (t_lsp st + t_s st) src))) as u. clear Hequ U.
+    set (u0 := ws_prefix_len (firstn (S v) (skipn (t_lsp st + t_s st) src))) in *.
+    set (w := Nat.min (match skipn (t_lsp st + t_s st) src with b0 :: _ => width b0 | [] => 0 end) (S v)).
+    assert (W : w <= length src - (t_lsp st + t_s st)) by (unfold w; eapply Nat.le_trans; [apply Nat.le_min_r|exact V]).
+    set (u := match u0 with 0 => if unknown_covers_ws_char cfg then w else 0 | S _ => u0 end).
+    assert (Hu : u <= length src - (t_lsp st + t_s st)).
+    { unfold u. destruct u0; [destruct (unknown_covers_ws_char cfg); lia|exact U']. }
+    clearbody u. clear U U' W.
     destruct (unknown_bumps cfg); unfold step_ok, tok_of, tcur in *; cbn; repeat split; lia.
 Qed.
 
@@ -194,8 +200,8 @@ Proof.
     cbn. lia.
 Qed.
 
-Definition old_tcfg : tcfg := mkTcfg true true false true 80 81.
-Definition new_tcfg : tcfg := mkTcfg true true true true 80 81.
+Definition old_tcfg : tcfg := mkTcfg true true false true false 80 81.
+Definition new_tcfg : tcfg := mkTcfg true true true true false 80 81.
 
 Lemma tokens_tile_source_old_code_refuted :
   let '(ts, st, ended) := run_ops old_tcfg w_lex [226; 128; 97]%N [ONext; ONext; ONext] init_tstate false in
